@@ -23,6 +23,7 @@ pub proof fn lemma_share_equation(h: int, s: int, r: int)
     lemma_mul_neg(fmul(r, s), h);
     assert(fmul(fneg(h), fmul(r, s)) == fmul(fmul(r, s), fneg(h)));
     assert(fmul(fmul(r, s), h) == fmul(h, fmul(r, s)));
+    lemma_mul_assoc(h, r, s);
     assert(fmul(fmul(h, r), s) == fmul(h, fmul(r, s)));
     assert(fadd(fneg(fmul(h, fmul(r, s))), fmul(h, fmul(r, s))) == fadd(fmul(h, fmul(r, s)), fneg(fmul(h, fmul(r, s)))));
 }
